@@ -20,12 +20,20 @@ PROVED here for ALL inputs (no bounds; every clause of the property that is disc
   * domain guards: zero reserves fail, exact-out of ≥ half the reserve fails (the only "max out ratio" of this tree,
     implied by `Pow`'s base < 2), stableswap input ≥ reserve / non-positive reserves panic, exits of ≥ all shares fail;
     there is NO `MaxInRatio` (translator fact + witness): amounts in above the reserve are accepted.
-NOT PROVED (PARTIAL; stated below in comments, decided by the engine's oracle on the explored inputs only):
-  * `stableswap_invariant_nondecreasing` on the integer post-swap reserves;
-  * `balancer_product_per_share_within_powPrecision` and `balancer_result_within_powPrecision` (they rest on the
-    continuum bound of `osmomath.Pow`, which C13 shows to FAIL for bases below 0.5 — findings F9/F10; since this tree
-    has no `MaxInRatio`/`MaxOutRatio`, those bases are reachable: see the engine's keys `…:base<1:0.5<|x|<=0.9`);
-  * `no_profit_sequence`.
+CONTINUED in (same property, registered with it):
+  * `Props/C04Stable.lean`  the exact rational stableswap invariant: `stableswap_invariant_nondecreasing` as stated is FALSE of
+                            the code (`stableswap_invariant_decrease_witness`, `…_exact_out`: relative loss ≈ 10^-38 at zero
+                            spread, scaling factors 10^18; confirmed on the Go code); PROVED: explicit-error partials
+                            (`K' ≥ K·(1 − 18·10^-36)`), FULL for scaling factors 1 and for a modest spread charge;
+  * `Props/C04Real.lean`    `balancer_result_within_powPrecision` / `balancer_product_per_share_…` as CONDITIONAL theorems
+                            `…_of_pow_accuracy` over the reals (the hypothesis is what C13 F9/F10 refute for bases < 0.5;
+                            unconditional for equal weights);
+  * `Props/C04Seq.lean`     `no_profit_sequence` for the exact part (proportional joins / exits): reserves per share never
+                            decrease, group / single-actor no-gain, and the witness that a single actor CAN gain at another
+                            actor's expense when interleaved;
+  * `Props/C02C04.lean`     the pool-math contract of C02 proved for this math (F13 characterised: `Pow ≤ 0`).
+STILL OPEN (decided by the engine's oracle on the explored inputs only): `no_profit_sequence` for sequences containing swaps
+or single-asset joins/exits (needs Pow accuracy: F9/F10; no MaxInRatio/MaxOutRatio in this tree).
 -/
 import OsmoVerif.Proofs.GammMathSolver
 
@@ -243,15 +251,10 @@ theorem stableswap_solver_post {x y w yIn xOut : Int} (h : solveCfmmMulti x y w 
           exact compareBigDec_zero_mult solverTol_add solverTol_mult (by decide) hc
 
 /-
-PARTIAL — `stableswap_invariant_nondecreasing`: for every successful `ssSwapOut p [(dIn, a)] dOut spread = .ok (out, p')`
-(and `ssSwapIn`), with xᵢ = reserveᵢ/scalingFactorᵢ as exact rationals,  Π xᵢ' · Σ xᵢ'² ≥ Π xᵢ · Σ xᵢ².
-`stableswap_solver_post` gives `targetK ≤ iterK xEst` on the ROUNDED kernels (reserves scaled with 36-decimal floor,
-half-even products, half-even `QuoMut` in `targetK`); what is missing is a bound of those roundings (≈ 10^-36
-relative) against the slack of the final integer truncation (`Dec()` then `TruncateInt` / `Ceil`), which is not
-uniform: when `xOut·scalingFactor` is within 10^-18 of an integer the slack vanishes.  Decided by the oracle
-(`stableswap:invariant-decreased`, exact rationals on the integer post-swap reserves).
+`stableswap_invariant_nondecreasing` (for every successful `ssSwapOut`/`ssSwapIn`, with xᵢ = reserveᵢ/scalingFactorᵢ as exact
+rationals, Π xᵢ' · Σ xᵢ'² ≥ Π xᵢ · Σ xᵢ²) is FALSE of the code: see `Props/C04Stable.lean` (witnesses, the explicit-error
+partial theorems built on `stableswap_solver_post`, and the FULL conditional variants).
 -/
-
 
 /-! ## the stableswap single-asset join search -/
 
